@@ -406,6 +406,7 @@ fn check_member_with_unresolved_tparams(
     }
   };
   let class_id = obj_type.id;
+  let object_is_class_statics = obj_type.is_class_statics;
   if let Some(method_type_info) =
     cx.get_method_type(obj_type, expression.field_name.name, expression.common.loc)
   {
@@ -503,7 +504,12 @@ fn check_member_with_unresolved_tparams(
       error.add_type_args_arity_error(explicit_type_arguments.arguments.len(), 0);
       cx.error_set.report_stackable_error(expression.common.loc, error);
     }
-    let fields = cx.resolve_struct_definitions(checked_expression.type_());
+    // `Class.field`: the class object itself has no fields, only instances have.
+    let fields = if object_is_class_statics {
+      Vec::with_capacity(0)
+    } else {
+      cx.resolve_struct_definitions(checked_expression.type_())
+    };
     let mut field_order_mapping = HashMap::new();
     let mut field_mappings = HashMap::new();
     for (i, field) in fields.into_iter().enumerate() {
